@@ -184,10 +184,13 @@ function adhoc_parse_select_expression_to_column_infos(select_expression, string
 
 
 function stable_compare(a, b) {
-    for (var i = 0; i < a.length; i++) {
+    // Entries are [sort_key_1, ..., sort_key_n, NR, out_fields]. The output record itself must not take part in the comparison:
+    // entries with equal keys and equal NR (several JOIN matches or UNNEST values) keep their emission order because Array.sort() is stable.
+    for (var i = 0; i < a.length - 1; i++) {
         if (a[i] !== b[i])
             return a[i] < b[i] ? -1 : 1;
     }
+    return 0;
 }
 
 
